@@ -27,6 +27,7 @@ import SwcVerif.Model.AlgoRunLMeasure
 import SwcVerif.Model.AlgoRunNodeBranch
 import SwcVerif.Model.AlgoRunMst
 import SwcVerif.Model.AlgoRunParse
+import SwcVerif.Model.AlgoRunCut
 import SwcVerif.Model.Assemble
 
 def dispatch (op : String) (args : List String) : String :=
@@ -72,6 +73,7 @@ def dispatch (op : String) (args : List String) : String :=
   | "gtips" | "gnodebranch" | "gnode" => AlgoRun.handleNodeBranch op args
   | "gmst" => AlgoRun.handleMst args
   | "gparse" => AlgoRun.handleParse args
+  | "gtosubtree" | "gcutenter" | "gcutdepth" | "gcutleave" | "gcutleaveset" => AlgoRun.handleCut op args
   | "asm" => Asm.handle args
   | "gasm" => AlgoRun.handleAsm args
   | "swcline" => SwcText.handleLine args
